@@ -117,6 +117,25 @@ static FWire dispatch(const std::string& comp,Reader& r,FReader&) {
         kf.reg = [](const Geometry&,const Mesh*,const std::vector<Vect3>&) { };
         return c10::run(op,dir,geo,r,integrator,kf);
     }
+    if (op==10) {  // the API user's way: ONE loaded Geometry, finalize() / finalize(true) / finalize(false) in turn;
+                   // after each, dimension and head matrix must equal those of a FRESH load with that ordering.  `old` = may use the old ordering
+        auto fresh = [&](const bool o) { Geometry g2(gf,cf,o); return HeadMat(g2,integrator); };
+        auto same = [](const SymMatrix& A,const SymMatrix& B) { return A.nlin()==B.nlin() && (A.size()==0 || std::memcmp(A.data(),B.data(),A.size()*sizeof(double))==0); };
+        std::vector<bool> seq = { false };              // the load itself finalized with the default ordering
+        if (old) { seq.push_back(true); seq.push_back(false); seq.push_back(true); } else { seq.push_back(false); seq.push_back(false); }
+        Geometry g1(gf,cf,false);
+        out.z.push_back(ST_OK); out.z.push_back((ll)seq.size());
+        for (size_t k=0;k<seq.size();++k) {
+            if (k>0) g1.finalize(seq[k]);
+            const SymMatrix F = fresh(seq[k]);
+            ll dim = -1, eq = 0, status = 0;
+            const ll expect = (ll)g1.nb_parameters()-(ll)g1.nb_current_barrier_triangles();
+            try { const SymMatrix H = HeadMat(g1,integrator); dim = H.nlin(); eq = same(H,F); }
+            catch (std::invalid_argument&) { status = 1; } catch (std::exception&) { status = 3; }
+            out.z.push_back(seq[k]); out.z.push_back(status); out.z.push_back(expect); out.z.push_back(dim); out.z.push_back((ll)F.nlin()); out.z.push_back(eq);
+        }
+        return out;
+    }
     if (op==6) {   // Head2MEGMat
         const Sensors sq((dir+"/squids.txt").c_str());
         const Matrix& positions = sq.getPositions(); const Matrix& orientations = sq.getOrientations();
